@@ -235,7 +235,8 @@ class TermEnv:
 
 
 def bd_tla(z0, z1=0, z2=0, z3=0):
-    return "<<" + ", ".join(to_tla(Cx.of(z)) for z in (z0, z1, z2, z3)) + ">>"
+    """A truncated Taylor series; every coefficient is a constant polynomial <<c>> of spec/jets/CLbase.tla."""
+    return "<<" + ", ".join("<<" + to_tla(Cx.of(z)) + ">>" for z in (z0, z1, z2, z3)) + ">>"
 
 
 class JetPool(Pool):
